@@ -12,8 +12,12 @@ pub mod c06;
 pub mod c07;
 pub mod c08;
 pub mod c09;
+pub mod c10;
+pub mod c11;
+pub mod clitab;
 pub mod c12;
 pub mod c13;
+pub mod c14;
 pub mod c19;
 pub mod c20;
 pub mod common;
@@ -35,8 +39,11 @@ pub fn lookup(id: &str) -> Option<PropDef> {
         "C07" => PropDef { run: c07::run, replay: c07::replay },
         "C08" => PropDef { run: c08::run, replay: c08::replay },
         "C09" => PropDef { run: c09::run, replay: c09::replay },
+        "C10" => PropDef { run: c10::run, replay: c10::replay },
+        "C11" => PropDef { run: c11::run, replay: c11::replay },
         "C12" => PropDef { run: c12::run, replay: c12::replay },
         "C13" => PropDef { run: c13::run, replay: c13::replay },
+        "C14" => PropDef { run: c14::run, replay: c14::replay },
         "C19" => PropDef { run: c19::run, replay: c19::replay },
         "C20" => PropDef { run: c20::run, replay: c20::replay },
         _ => return None,
